@@ -8,9 +8,10 @@
     element size, capacity and backend kind, with the complete case split (room / can grow / fixed
     and full => panic); plus the storage lifecycle of the user-defined backend: one build with the
     element layout, no resize request below the live length, release once after the remaining
-    elements are destroyed.  PARTIAL: whole histories through [Interp.exec] (composition of these
-    steps, including moves between vectors) are covered by the correspondence check on the
-    relocating, poison-filling, quarantining backend of the harness. *)
+    elements are destroyed.  Whole histories through [Interp.exec] (composition of these
+    steps, including moves between vectors) never fault either: [C05_history_no_fault] for the fragment
+    of AV.Props.C01; outside it (drain / splice / clone inside a history) the composition is covered by
+    the correspondence check on the relocating, poison-filling, quarantining backend of the harness. *)
 From AV.Model Require Import Base Bytes Vec Ops.
 From AV.Spec Require Import VecSpec.
 From AV.Proofs Require Import MemLemmas Rep VecProofs TempProofs RangeProofs CapProofs NoFault HandleProofs.
@@ -136,6 +137,20 @@ Theorem C05_release_after_elements :
 Proof. exact drop_vec_reloc. Qed.
 
 
+(* ---- histories ---- *)
+From AV.Model Require Import Interp.
+From AV.Spec Require Import WorldSpec.
+From AV.Proofs Require Import WorldProofs.
+(** WHOLE HISTORIES: no step of any history of the fragment (see AV.Props.C01, C01_history_refines) reaches a Fault - out-of-bounds access, stale pointer after a capacity change, typed read of uninitialised or moved-out bytes, backend misuse - on every backend kind, including the relocating one with prebuilt capacity (outcome codes >= 100 are the faults). *)
+Theorem C05_history_no_fault :
+  forall (c : cfg) (ops : list op) (w : world) (st : astate) (rs : list sres),
+         cfg_wf c ->
+         WRep c w st ->
+         spec_run c st (unext (wuw w)) ops = Some rs ->
+         Admissible c w ops -> Forall (fun sr : step_result => sr_out sr < 100) (run_hist c ops w).
+Proof. exact history_no_fault. Qed.
+
+(* ---- end histories ---- *)
 Print Assumptions C05_push_no_fault.
 Print Assumptions C05_insert_no_fault.
 Print Assumptions C05_handle_no_fault.
@@ -149,3 +164,4 @@ Print Assumptions C05_build_once_with_element_layout.
 Print Assumptions C05_shrink_never_below_len.
 Print Assumptions C05_shrink_to_fit_request.
 Print Assumptions C05_release_after_elements.
+Print Assumptions C05_history_no_fault.
